@@ -85,32 +85,40 @@ def nScalar (level : Nat) (fallible : Bool) (name : Str) (args : Args) : Str :=
 /-- the node emitted for an empty selection map (F14 repair) -/
 def nTypename (level : Nat) : Str := nScalar level false cs!"__typename" []
 
-/-- `"[\n" + nodes + indent + "]"` with the empty-map node -/
+/-- `"[\n" + nodes + indent + "]"` -/
+def nBracket (level : Nat) (nodes : Str) : Str := cs!"[\n" ++ nodes ++ indent level ++ [93]
+
+/-- `generate_normalization_ast_text` around already printed nodes, with the empty-map node -/
 def nWrap (level : Nat) (isEmpty : Bool) (nodes : Str) : Str :=
-  cs!"[\n" ++ (if isEmpty then nTypename (level + 1) else nodes) ++ indent level ++ [93]
+  nBracket level (if isEmpty then nTypename (level + 1) else nodes)
+
+/-- the `format!` of the `LinkedField` arm, `selections` already printed -/
+def nLinked (level : Nat) (fallible : Bool) (name : Str) (args : Args) (conc : Conc) (selections : Str) : Str :=
+  indent level ++ cs!"{\n"
+    ++ indent (level + 1) ++ cs!"kind: \"Linked\",\n"
+    ++ indent (level + 1) ++ cs!"isFallible: " ++ showBool fallible ++ cs!",\n"
+    ++ indent (level + 1) ++ cs!"fieldName: \"" ++ name ++ cs!"\",\n"
+    ++ indent (level + 1) ++ cs!"arguments: " ++ tsArgs (level + 1) args ++ cs!",\n"
+    ++ indent (level + 1) ++ cs!"concreteType: " ++ concText conc ++ cs!",\n"
+    ++ indent (level + 1) ++ cs!"selections: " ++ selections ++ cs!",\n"
+    ++ indent level ++ cs!"},\n"
+
+/-- the `format!` of the `InlineFragment` arm, `selections` already printed -/
+def nFrag (level : Nat) (ty : Str) (selections : Str) : Str :=
+  indent level ++ cs!"{\n"
+    ++ indent (level + 1) ++ cs!"kind: \"InlineFragment\",\n"
+    ++ indent (level + 1) ++ cs!"type: \"" ++ ty ++ cs!"\",\n"
+    ++ indent (level + 1) ++ cs!"selections: " ++ selections ++ cs!",\n"
+    ++ indent level ++ cs!"},\n"
 
 mutual
 /-- `generate_normalization_ast_node(item, indentation_level)` -/
 def nSel (level : Nat) : Sel → Str
   | .scalar fallible name args => nScalar level fallible name args
   | .linked fallible name args conc map =>
-    indent level ++ cs!"{\n"
-      ++ indent (level + 1) ++ cs!"kind: \"Linked\",\n"
-      ++ indent (level + 1) ++ cs!"isFallible: " ++ showBool fallible ++ cs!",\n"
-      ++ indent (level + 1) ++ cs!"fieldName: \"" ++ name ++ cs!"\",\n"
-      ++ indent (level + 1) ++ cs!"arguments: " ++ tsArgs (level + 1) args ++ cs!",\n"
-      ++ indent (level + 1) ++ cs!"concreteType: " ++ concText conc ++ cs!",\n"
-      ++ indent (level + 1) ++ cs!"selections: "
-      ++ nWrap (level + 1) map.isEmpty (nItems (level + 2) map) ++ cs!",\n"
-      ++ indent level ++ cs!"},\n"
+    nLinked level fallible name args conc (nWrap (level + 1) map.isEmpty (nItems (level + 2) map))
   | .clientObj .. => []
-  | .frag ty map =>
-    indent level ++ cs!"{\n"
-      ++ indent (level + 1) ++ cs!"kind: \"InlineFragment\",\n"
-      ++ indent (level + 1) ++ cs!"type: \"" ++ ty ++ cs!"\",\n"
-      ++ indent (level + 1) ++ cs!"selections: "
-      ++ nWrap (level + 1) map.isEmpty (nItems (level + 2) map) ++ cs!",\n"
-      ++ indent level ++ cs!"},\n"
+  | .frag ty map => nFrag level ty (nWrap (level + 1) map.isEmpty (nItems (level + 2) map))
 /-- the `for item in selection_map` loop at node level `level` -/
 def nItems (level : Nat) : SelMap → Str
   | [] => []
@@ -156,30 +164,15 @@ mutual
 def renderTsNode (level : Nat) : NTree → Str
   | .scalar fallible name args => nScalar level fallible name args
   | .linked fallible name args conc kids =>
-    indent level ++ cs!"{\n"
-      ++ indent (level + 1) ++ cs!"kind: \"Linked\",\n"
-      ++ indent (level + 1) ++ cs!"isFallible: " ++ showBool fallible ++ cs!",\n"
-      ++ indent (level + 1) ++ cs!"fieldName: \"" ++ name ++ cs!"\",\n"
-      ++ indent (level + 1) ++ cs!"arguments: " ++ tsArgs (level + 1) args ++ cs!",\n"
-      ++ indent (level + 1) ++ cs!"concreteType: " ++ concText conc ++ cs!",\n"
-      ++ indent (level + 1) ++ cs!"selections: "
-      ++ cs!"[\n" ++ renderTsNodes (level + 2) kids ++ indent (level + 1) ++ [93] ++ cs!",\n"
-      ++ indent level ++ cs!"},\n"
-  | .frag ty kids =>
-    indent level ++ cs!"{\n"
-      ++ indent (level + 1) ++ cs!"kind: \"InlineFragment\",\n"
-      ++ indent (level + 1) ++ cs!"type: \"" ++ ty ++ cs!"\",\n"
-      ++ indent (level + 1) ++ cs!"selections: "
-      ++ cs!"[\n" ++ renderTsNodes (level + 2) kids ++ indent (level + 1) ++ [93] ++ cs!",\n"
-      ++ indent level ++ cs!"},\n"
+    nLinked level fallible name args conc (nBracket (level + 1) (renderTsNodes (level + 2) kids))
+  | .frag ty kids => nFrag level ty (nBracket (level + 1) (renderTsNodes (level + 2) kids))
 def renderTsNodes (level : Nat) : List NTree → Str
   | [] => []
   | t :: rest => renderTsNode level t ++ renderTsNodes level rest
 end
 
 /-- renderer of a whole tree at `indentation_level = level` -/
-def renderTs (level : Nat) (ts : List NTree) : Str :=
-  cs!"[\n" ++ renderTsNodes (level + 1) ts ++ indent level ++ [93]
+def renderTs (level : Nat) (ts : List NTree) : Str := nBracket level (renderTsNodes (level + 1) ts)
 
 mutual
 /-- forget `isFallible` and `concreteType` -/
@@ -194,5 +187,43 @@ end
 
 /-- the selection tree of the normalization AST -/
 def normTree (m : SelMap) : List Tree := NTree.eraseList (normTreeD m)
+
+/-! ### the maps of a refetch / imperatively loaded query
+(`get_paths_and_contents_for_imperatively_loaded_field`, `selection_map_wrapped`,
+`maybe_add_typename_selection`) -/
+
+/-- `WrappedSelectionMapSelection` -/
+inductive WrapSel where
+  | linked (name : Str) (args : Args) (conc : Conc) (fallible : Bool)
+  | frag (ty : Str)
+deriving Repr, Inhabited
+
+def isDiscriminator : Key → Bool
+  | ⟨_, .discriminator⟩ => true
+  | _ => false
+
+/-- `maybe_add_typename_selection`: `BTreeMap::insert(Discriminator, __typename)`; the
+discriminator is the least key -/
+def maybeAddTypename (m : SelMap) : SelMap :=
+  (⟨0, .discriminator⟩, Sel.scalar false cs!"__typename" []) :: m.filter fun e => !(isDiscriminator e.1)
+
+/-- `selection_map_wrapped(inner, subfields_or_inline_fragments)` (innermost wrapper first) -/
+def selectionMapWrapped (inner : SelMap) : List WrapSel → SelMap
+  | [] => inner
+  | .linked name args conc fallible :: rest =>
+    selectionMapWrapped [(⟨0, .serverField name args⟩, Sel.linked fallible name args conc inner)] rest
+  | .frag ty :: rest =>
+    selectionMapWrapped [(⟨0, .inlineFragment ty⟩, Sel.frag ty (maybeAddTypename inner))] rest
+
+/-- the map handed to `generate_normalization_ast_text` for a refetch query -/
+def refetchNormMap (nested : SelMap) (subfields : List WrapSel) : SelMap :=
+  selectionMapWrapped nested subfields
+
+/-- the map handed to `generate_query_text`: an inline fragment on
+`wrap_refetch_field_with_inline_fragment` is inserted innermost -/
+def refetchQueryMap (nested : SelMap) (subfields : List WrapSel) (wrap : Option Str) : SelMap :=
+  match wrap with
+  | some ty => selectionMapWrapped nested (.frag ty :: subfields)
+  | none => selectionMapWrapped nested subfields
 
 end IsoVerif.Core
